@@ -116,6 +116,14 @@ def fixed_models():
                                     A(1, 2): F(app(8, ref(A(0, 2)), ref(A(0, 1)))),
                                     A(2, 1): F(('if', ref(A(1, 1)), ref(A(1, 2)), ('lit', 'no')))}, 'names': {}},
                 (0, 3)))
+    # equal-but-differently-typed constants side by side, observed by `&` (text form) and `=` (TRUE=1 is FALSE)
+    out.append(('twins-true', {'cells': {A(0, 1): True, A(0, 2): 1, A(1, 1): F(app(8, ref(A(0, 1)), ('lit', '|'))),
+                                         A(1, 2): F(app(8, ref(A(0, 2)), ('lit', '|'))),
+                                         A(2, 1): F(app(6, ref(A(0, 1)), ref(A(0, 2))))}, 'names': {}}, (1, True)))
+    out.append(('twins-false', {'cells': {A(0, 1): 0, A(0, 2): False, A(1, 1): F(app(8, ref(A(0, 1)), ('lit', '|'))),
+                                          A(1, 2): F(app(8, ref(A(0, 2)), ('lit', '|'))),
+                                          A(2, 1): F(('if', app(6, ref(A(0, 2)), ref(A(0, 1))), ('lit', 1),
+                                                      ref(A(0, 2))))}, 'names': {}}, (False, 0)))
     return out
 
 
@@ -129,19 +137,31 @@ def formulas_of(wb):
 
 
 INPUT_VALUES = [0, 1, 2, 3, 4, 5, 7, 10, 12, 2.5, 0.5, -3]
+# equal (and equal-hash) in Python, different Excel types: a conversion cached by native value mixes them up
+TRUE_POOL = [True, 1, 1.0]
+FALSE_POOL = [False, 0, 0.0, '']
+TWIN_VALUES = TRUE_POOL + FALSE_POOL
 SPECIAL_VALUES = ['x', 'ab', '', True, False, 0, 2.5, -1, 100]
 
 
-def gen_fx(rng, earlier, safe_cols, depth):
+def gen_fx(rng, earlier, safe_cols, depth, twins=False):
     """a formula over earlier cells and over ranges inside the safe columns of Sheet1"""
+    if twins and earlier and rng.random() < 0.45:
+        # type-sensitive observers of a constant: text form, typed equality, truth value
+        k = rng.random()
+        if k < 0.45:
+            return app(8, ref(rng.choice(earlier)), ('lit', '|'))
+        if k < 0.8:
+            return app(6, ref(rng.choice(earlier)), ref(rng.choice(earlier)))
+        return ('if', ref(rng.choice(earlier)), app(8, ref(rng.choice(earlier)), ('lit', 'y')), ('lit', 'n'))
     r = rng.random()
     if depth <= 0 or r < 0.22:
         if earlier and rng.random() < 0.8:
             return ref(rng.choice(earlier))
         return ('lit', rng.choice([0, 1, 2, 3, 5, 10]))
     if r < 0.55:
-        return app(rng.choice([0, 1, 2, 0, 1, 2, 3]), gen_fx(rng, earlier, safe_cols, depth - 1),
-                   gen_fx(rng, earlier, safe_cols, depth - 1))
+        return app(rng.choice([0, 1, 2, 0, 1, 2, 3]), gen_fx(rng, earlier, safe_cols, depth - 1, twins),
+                   gen_fx(rng, earlier, safe_cols, depth - 1, twins))
     if r < 0.72 and safe_cols > 0:
         c0 = rng.randrange(safe_cols)
         c1 = rng.randrange(c0, safe_cols)
@@ -154,7 +174,7 @@ def gen_fx(rng, earlier, safe_cols, depth):
         key = f'Sheet1!{"ABCDEFGH"[c0]}{r0}:{"ABCDEFGH"[c1]}{r1}'
         fn = 4 if rng.random() < 0.8 else 9
         if rng.random() < 0.3:
-            return app(0, app(fn, ('rng', key)), gen_fx(rng, earlier, safe_cols, depth - 1))
+            return app(0, app(fn, ('rng', key)), gen_fx(rng, earlier, safe_cols, depth - 1, twins))
         if fn == 9:
             # COUNTA returns a native int; as the whole value of a cell that is itself a member of a range
             # it makes RangeNode.eval raise AttributeError (both in the history and in the fresh model, so
@@ -162,22 +182,22 @@ def gen_fx(rng, earlier, safe_cols, depth):
             return app(0, app(9, ('rng', key)), ('lit', 0))
         return app(fn, ('rng', key))
     if r < 0.82:
-        return ('if', app(rng.choice([10, 6]), gen_fx(rng, earlier, safe_cols, depth - 1),
-                          gen_fx(rng, earlier, safe_cols, depth - 1)),
-                gen_fx(rng, earlier, safe_cols, depth - 1), gen_fx(rng, earlier, safe_cols, depth - 1))
+        return ('if', app(rng.choice([10, 6]), gen_fx(rng, earlier, safe_cols, depth - 1, twins),
+                          gen_fx(rng, earlier, safe_cols, depth - 1, twins)),
+                gen_fx(rng, earlier, safe_cols, depth - 1, twins), gen_fx(rng, earlier, safe_cols, depth - 1, twins))
     if r < 0.88:
-        return (rng.choice(['and', 'or']), [app(10, gen_fx(rng, earlier, safe_cols, depth - 1), ('lit', 4)),
-                                            app(6, gen_fx(rng, earlier, safe_cols, depth - 1), ('lit', 2))])
+        return (rng.choice(['and', 'or']), [app(10, gen_fx(rng, earlier, safe_cols, depth - 1, twins), ('lit', 4)),
+                                            app(6, gen_fx(rng, earlier, safe_cols, depth - 1, twins), ('lit', 2))])
     if r < 0.93:
-        return app(7, gen_fx(rng, earlier, safe_cols, depth - 1))
+        return app(7, gen_fx(rng, earlier, safe_cols, depth - 1, twins))
     if r < 0.96:
-        return app(8, gen_fx(rng, earlier, safe_cols, depth - 1), ('lit', 'k'))
+        return app(8, gen_fx(rng, earlier, safe_cols, depth - 1, twins), ('lit', 'k'))
     if r < 0.975:
-        return ('fail', [gen_fx(rng, earlier, safe_cols, depth - 1)])
-    return app(0, gen_fx(rng, earlier, safe_cols, depth - 1), ('lit', 1))
+        return ('fail', [gen_fx(rng, earlier, safe_cols, depth - 1, twins)])
+    return app(0, gen_fx(rng, earlier, safe_cols, depth - 1, twins), ('lit', 1))
 
 
-def gen_model(rng, ncells):
+def gen_model(rng, ncells, twins=None):
     """random acyclic workbook with `ncells` cells: a column-major grid on Sheet1 (a cell only refers to
     earlier cells and to ranges in strictly earlier columns), a few cells on Sheet2, 0-2 defined names"""
     rows = 3
@@ -189,6 +209,8 @@ def gen_model(rng, ncells):
     for k in range(n2):
         order.insert(rng.randint(1, len(order)), ('x', k))
     cells, earlier = {}, []
+    if twins is None:
+        twins = rng.random() < 0.25
     for i, slot in enumerate(order):
         if slot[0] == 'g':
             addr = A(slot[1], slot[2])
@@ -199,11 +221,13 @@ def gen_model(rng, ncells):
             safe_cols = nxt[0][1] if nxt else 4
         is_input = i < 2 or rng.random() < 0.35
         if is_input:
-            cells[addr] = rng.choice(INPUT_VALUES)
+            cells[addr] = rng.choice(TWIN_VALUES if twins and rng.random() < 0.85 else INPUT_VALUES)
         else:
-            cells[addr] = F(gen_fx(rng, earlier, safe_cols, rng.randint(1, 3)))
+            cells[addr] = F(gen_fx(rng, earlier, safe_cols, rng.randint(1, 3), twins))
         earlier.append(addr)
     wb = {'cells': cells, 'names': {}}
+    if twins:
+        wb['twins'] = True
     ins = inputs_of(wb)
     if ins and rng.random() < 0.6:
         wb['names']['rate'] = rng.choice(ins)
@@ -251,7 +275,10 @@ def random_history(rng, wb, length):
     for _ in range(length):
         r = rng.random()
         if r < 0.36 and in_handles:
-            v = rng.choice(INPUT_VALUES) if rng.random() < 0.8 else rng.choice(SPECIAL_VALUES)
+            if wb.get('twins') and rng.random() < 0.7:
+                v = rng.choice(TWIN_VALUES)
+            else:
+                v = rng.choice(INPUT_VALUES) if rng.random() < 0.8 else rng.choice(SPECIAL_VALUES)
             h.append(('s', rng.choice(in_handles), v))
         elif r < 0.86:
             h.append(('e', rng.choice(all_handles)))
@@ -326,6 +353,7 @@ def run_history(wb, oracle, hist):
     names = wb.get('names', {})
     inputs = {a: c for a, c in wb['cells'].items() if not (isinstance(c, tuple) and c and c[0] == 'f')}
     formulas = set(formulas_of(wb))
+    initial = {a: common.canon(c.value) for a, c in model.cells.items() if c.formula is None}
     obs, viol = [], []
     last_eval = {}          # addr -> (result, inputs version)
     version = 0
@@ -363,7 +391,7 @@ def run_history(wb, oracle, hist):
             stored = common.canon(model.cells[addr].value) if addr in model.cells else 'I:0'
             got = common.call_real(ev.get_cell_value, handle)
             want = oracle.value(inputs, addr)
-            if not (r == want or common.same_value(r, want)):
+            if r != want:       # exact wire text: B:/I:/F:/T: — the Excel type counts, not only the value
                 bad('evaluate differs from a freshly compiled model holding the current inputs', i, want, r)
             elif not r.startswith('X:') and addr in model.cells and not (stored == r and got == r):
                 bad('evaluate did not store its result as the value of the cell', i, r,
@@ -387,13 +415,13 @@ def run_history(wb, oracle, hist):
                     cands.add('Z')
                 for st in states_since[addr]:
                     cands.add(oracle.value(st, addr))
-                ok = any(got == c or common.same_value(got, c) for c in cands)
+                ok = got in cands
                 want = sorted(cands)
             elif addr in inputs:
                 want = common.canon(inputs[addr])
                 ok = got == want
-            elif addr in model.cells:       # blank member of a range that was never set
-                want = 'T:'
+            elif addr in initial:           # blank member of a range that was never set: its initial content
+                want = initial[addr]
                 ok = got == want
             else:
                 want = 'I:0'
@@ -446,6 +474,8 @@ def wb_from_json(j):
     out = {'cells': cells, 'names': dict(j.get('names', {}))}
     if j.get('extra_inputs'):
         out['extra_inputs'] = list(j['extra_inputs'])
+    if j.get('twins'):
+        out['twins'] = True
     return out
 
 
@@ -594,7 +624,8 @@ def run(ctx):
         for _ in range(ngen):
             wb = gen_model(rng, rng.randint(3, 5))
             ins = inputs_of(wb)
-            vals = (rng.choice([6, 7, 8, 9, 11]), rng.choice(SPECIAL_VALUES))
+            vals = ((rng.choice(TRUE_POOL), rng.choice(FALSE_POOL)) if wb.get('twins')
+                    else (rng.choice([6, 7, 8, 9, 11]), rng.choice(SPECIAL_VALUES)))
             if ins:
                 small.append(('generated', wb, vals))
         batches = []
